@@ -46,7 +46,7 @@ def check_stack(ctx, md, payload, layers, pre, suf, compare):
         return
     if len(layers) >= 2:
         ctx.nontrivial.add((names, payload, pre, suf))
-    if compare is not None and len(data) < 1200:
+    if compare is not None and len(data) < 800:
         pe_t, xor_t = rec.tables()
         compare.append(([10, data, pe_t, xor_t], ["ok", tree]))
 
@@ -63,7 +63,7 @@ def run(ctx):
         h = ctx.rng.randint(2, maxh)
         layers = [ctx.rng.choice(stacks.LAYERS) for _ in range(h)]
         check_stack(ctx, md, ctx.rng.choice(stacks.PAYLOADS), layers, ctx.rng.choice(stacks.NEUTRAL_PRE) + b" " * ctx.rng.randint(0, 9), ctx.rng.choice(stacks.NEUTRAL_SUF),
-                    compare if len(compare) < ctx.budget(70, 600) else None)
+                    compare if len(compare) < ctx.budget(55, 600) else None)
     model = ctx.runner.run([("scan_default", a) for a, _ in compare])
     ctx.probe_counts["scan_default"] = len(compare)
     for (a, out), m in zip(compare, model):
